@@ -13,8 +13,9 @@ EXPLANATION = (
     "generator); every next_bool/next_float/next_int consumes exactly one underlying draw on every path (twin streams "
     "stay aligned under any interleaving of draw kinds); set_seed stores and seeds with the same value, reset re-seeds "
     "with the current seed, original seed is constructor-only; save_state/restore_state are getstate/setstate of the "
-    "private generator. Value ranges of floats/ints (stdlib contract, float rounding of lo+floor((hi-lo+1)u)) are not "
-    "decided.")
+    "private generator. next_float hands out the generator draw itself ([0,1) by its contract); next_int(lo, hi) is "
+    "proved to lie in [lo, hi] with both ends tight by symbolic affine bounds over the parameters (real arithmetic; the "
+    "float rounding of (hi-lo+1)*u for ranges wider than 2**53 is not decided).")
 
 RANDOM_FUNCS = {'random', 'seed', 'randint', 'randrange', 'choice', 'choices', 'shuffle', 'sample', 'uniform', 'gauss', 'normalvariate',
                 'expovariate', 'betavariate', 'gammavariate', 'triangular', 'getrandbits', 'getstate', 'setstate', 'lognormvariate',
@@ -127,6 +128,7 @@ def check_stream(ctx, c):
     ctx.ob('R12.6', f'{c}.next_bool', bool(ok), sample=f'{c}.next_bool returns {short(rs[0].value) if rs else "-"}')
     if not ok:
         ctx.finding('R12.6', f'{c}.next_bool', ci, fn, 'next_bool is not a comparison of one generator draw with a constant', where=f'{c}.next_bool')
+    r127_int_range(ctx, c, ci, G)
     ctx.rule('R12.3', f'seed wiring of {c}: set_seed stores and seeds the same value; reset re-seeds with the current seed; original seed is constructor-only')
     ss = prog.method(c, 'set_seed', inherited=False)
     p = ss.args.args[1].arg
@@ -305,3 +307,45 @@ def r125_translation_invariance(ctx, c, ci, G):
     for (node, msg) in problems[:2]:
         ctx.finding('R12.5', f'{c}.next_int:float-position', ci, node,
                     msg + ': for bounds of large magnitude (|lo| >= 2**52) the sum is rounded and integer draws leave the requested range', where=f'{c}.next_int')
+
+
+def r127_int_range(ctx, c, ci, G):
+    """R12.7: next_int(lo, hi) lies in [lo, hi] and both ends are reachable: symbolic affine bounds over lo, hi under lo <= hi"""
+    from ..affine import Affine, Lin, straight_line_env
+    prog = ctx.prog
+    ctx.rule('R12.7', f'{c}.next_int(lo, hi): every returned value is an integer with lower bound exactly lo and upper bound exactly hi '
+                      '(affine bounds over the parameters, draw in [0, 1), floor of an open upper bound loses one)')
+    fn = prog.method(c, 'next_int', inherited=False)
+    lo, hi = fn.args.args[1].arg, fn.args.args[2].arg
+    draw = f'self.{G}.random()'
+    rs = [r for r in walk_shallow(fn) if isinstance(r, ast.Return) and r.value is not None]
+    if not rs:
+        raise AnalysisError(f'anchor vanished: {c}.next_int returns nothing')
+    # two cases so that the bounds are tight in each: a single-value range (hi == lo) and a proper range (hi >= lo + 1)
+    cases = [('hi == lo', [(Lin(0, {hi: 1, lo: -1}), False), (Lin(0, {hi: -1, lo: 1}), False)]), ('hi > lo', [(Lin(-1, {hi: 1, lo: -1}), False)])]
+    for (case, assumptions), r in [(cs, r) for cs in cases for r in rs]:
+        ctx.examined()
+        t = unparse(r.value)
+        if t in (f'self.{G}.randint({lo}, {hi})', f'self.{G}.randrange({lo}, {hi} + 1)'):
+            ctx.ob('R12.7', f'{c}.next_int', True, sample=f'{c}.next_int returns {t}: range by the generator contract')
+            continue
+        aff = Affine({lo: True, hi: True}, assumptions=assumptions, units={draw: True})
+        env = straight_line_env(aff, fn)
+        v = aff.eval(r.value, env)
+        L, H = Lin(0, {lo: 1}), Lin(0, {hi: 1})
+        problems = []
+        if not v.isint:
+            problems.append('the value is not known to be an integer')
+        if v.lb is None or not aff.le(L, v.lb[0]):
+            problems.append(f'no proof that the value is >= {lo} (lower bound {v.lb[0] if v.lb else "unknown"})')
+        elif v.lb[0] != L:
+            problems.append(f'the value is always >= {v.lb[0]}: {lo} itself is never returned')
+        if v.ub is None or not aff.le(v.ub[0], H):
+            problems.append(f'no proof that the value is <= {hi} (upper bound {v.ub[0] if v.ub else "unknown"})')
+        elif v.ub[0] != H:
+            problems.append(f'the value is always <= {v.ub[0]}: {hi} itself is never returned')
+        ok = not problems
+        ctx.ob('R12.7', f'{c}.next_int:{case}', ok, sample=f'{c}.next_int returns `{short(r.value, 60)}` in {v} when {case}')
+        if not ok:
+            ctx.finding('R12.7', f'{c}.next_int:range', ci, r, f'next_int({lo}, {hi}) = `{short(r.value, 70)}` has bounds {v} when {case}: ' + '; '.join(problems) +
+                        (f' [not bounded: {aff.unknown[:2]}]' if aff.unknown else ''), where=f'{c}.next_int')
